@@ -52,7 +52,8 @@ package scen
 //                                     quiescent instant after Close returned (no
 //                                     other Close still running) a call of the
 //                                     instance sits at an environment seam (RPC,
-//                                     dial, datastore, router, crawl) with a
+//                                     dial, datastore, router, crawl, caller's
+//                                     keystore) with a
 //                                     context that is NOT done, and it does not
 //                                     belong to a caller's operation that is
 //                                     still in flight (calls carry the tag of the
@@ -93,6 +94,16 @@ package scen
 // calls without a context, or at calls tagged with an operation that has not
 // returned: a caller's operation runs on the caller's context and the
 // property only asks that it finishes or fails.
+//
+// Environment faults the flow itself knows about: a scenario may declare parked
+// calls stalled (c14Flow.stall: a hung datastore). A stalled call is neither a
+// scheduler choice nor answered by the drain phases; virtual time passes while
+// it is parked - time that does not count towards B, because the instance is
+// waiting for its environment - until the call's context is done (it is then
+// released as cancelled) or the scenario's own bound for the stall has passed
+// (it is then answered). See "buffered-provider" in c14_provider.go. The
+// scenario "ipfsdht-stale-refresh" (c14_refresh.go) adds no rule either: it
+// brings refresh rounds with a liveness-check phase under the rules above.
 //
 // Soundness notes: parked calls whose context is done are only ever released as
 // "cancelled" (answering them would race with the cancellation inside the
@@ -549,6 +560,26 @@ type c14Flow struct {
 	// a time-out with several calls parked fails them all at once, and the
 	// failure handlers then run in Go-scheduler order)
 	tickQuietOnly bool
+	// tickChunk, when set, splits every virtual-time jump of the workload into
+	// chunks of this length and ends the jump after the first chunk in which a
+	// seam call parked: the instance has begun to wait for its environment, and
+	// what further timers would do while it waits (a second goroutine queueing
+	// up behind the first) is then up to the scheduler's next decisions instead
+	// of happening unseen within one jump.
+	tickChunk time.Duration
+	// drainDts: the two strides in which drain lets virtual time pass while
+	// nothing can be released (the first for the first ten seconds, then the
+	// second). Scenarios whose component runs timers of its own set odd values
+	// (HARNESS pitfall 4).
+	drainDts [2]time.Duration
+	// stall, when set, is asked for every parked call that could be answered:
+	// true = the environment does not answer this call for the time being (a
+	// hung datastore). The call stays parked while virtual time passes and is
+	// only released once its context is done (as cancelled) or stall stops
+	// saying true; the scenario bounds the stall, because a component may wait
+	// for its environment as long as the environment takes. Time that passes
+	// while a stalled call is parked does not count towards B.
+	stall func(p *sim.Parked) bool
 
 	// overlapOK: the scenario allows a second Close that overlaps the first
 	// (drawn in run). Not set for components whose Close is a sync.Once around
@@ -569,7 +600,8 @@ type c14Flow struct {
 }
 
 func newC14Flow(s *sim.Sim, name string) *c14Flow {
-	return &c14Flow{s: s, name: name, dts: []time.Duration{time.Second, 30 * time.Second, 2 * time.Minute}}
+	return &c14Flow{s: s, name: name, dts: []time.Duration{time.Second, 30 * time.Second, 2 * time.Minute},
+		drainDts: [2]time.Duration{time.Second, 30 * time.Second}}
 }
 
 // baseline records the census; call it after the environment (hosts,
@@ -649,7 +681,7 @@ func (f *c14Flow) checkCloseInstant(overlapOnly bool) {
 		var live []string
 		for _, p := range s.Parked() {
 			switch p.Kind {
-			case "rpc", "dial", "ds", "gcp", "crawl":
+			case "rpc", "dial", "ds", "gcp", "crawl", "ks":
 			default:
 				continue
 			}
@@ -721,6 +753,7 @@ func (f *c14Flow) actions(closing bool) []sim.Action {
 			anyCancelled = true
 		case closing && f.prio != nil && f.prio(p) > minPrio:
 		case f.enabled != nil && !f.enabled(p):
+		case f.stall != nil && f.stall(p):
 		default:
 			acts = append(acts, sim.Action{ID: p.ID, Do: func() { f.answer(p, false) }})
 		}
@@ -793,6 +826,7 @@ func (f *c14Flow) drain(done func() bool) bool {
 			return true
 		}
 		var first, cancelled *sim.Parked
+		stalled := false
 		minPrio := f.minPrio(f.closeOp != nil)
 		for _, p := range s.Parked() {
 			if p.Kind == "client" || p.Kind == "lock" || p.Kind == "yield" {
@@ -802,6 +836,8 @@ func (f *c14Flow) drain(done func() bool) bool {
 				if cancelled == nil {
 					cancelled = p
 				}
+			} else if f.stall != nil && f.stall(p) {
+				stalled = true
 			} else if first == nil && (f.prio == nil || f.closeOp == nil || f.prio(p) <= minPrio) {
 				first = p
 			}
@@ -821,12 +857,18 @@ func (f *c14Flow) drain(done func() bool) bool {
 				continue
 			}
 		}
+		if stalled {
+			// the instance waits for its environment: not B's time
+			s.Count("time_advance")
+			s.Sleep(f.drainDts[0])
+			continue
+		}
 		if waited >= c14B {
 			return false
 		}
-		dt := time.Second
+		dt := f.drainDts[0]
 		if waited >= 10*time.Second {
-			dt = 30 * time.Second
+			dt = f.drainDts[1]
 		}
 		s.Sleep(dt)
 		waited += dt
@@ -834,6 +876,22 @@ func (f *c14Flow) drain(done func() bool) bool {
 	// the SUT keeps producing work: inconclusive, not a violation
 	s.Count("step_budget_exhausted")
 	return true
+}
+
+// sleep advances virtual time by d, in chunks if tickChunk is set (see there).
+func (f *c14Flow) sleep(d time.Duration) {
+	if f.tickChunk <= 0 {
+		f.s.Sleep(d)
+		return
+	}
+	for d > 0 {
+		c := min(d, f.tickChunk)
+		f.s.Sleep(c)
+		d -= c
+		if len(f.nonClientParked()) > 0 {
+			return
+		}
+	}
 }
 
 // closeReturned: some Close call returned that has not been judged yet.
@@ -880,7 +938,7 @@ func (f *c14Flow) run() {
 		if len(acts) == 0 || (len(f.dts) > 0 && !(f.tickQuietOnly && len(f.nonClientParked()) > 0) && s.Chance("tick", 1, 8)) {
 			s.Count("time_advance")
 			if len(f.dts) > 0 {
-				s.Sleep(f.dts[s.Draw("dt", len(f.dts))])
+				f.sleep(f.dts[s.Draw("dt", len(f.dts))])
 			} else {
 				s.Sleep(time.Second)
 			}
